@@ -469,13 +469,14 @@ Definition invoke_ternary (c l r : expr) (s : rstate) : outcome :=
   do s1 <- rec (CExpr c) s;
   truthy s1 (fun b => rec (CExpr (if b then l else r)) s1).
 
-(* invokeNilCoalescingOpExpr (the context is polled before the right operand, see
-   known_findings: fixed C02) *)
+(* invokeNilCoalescingOpExpr: an error of the left side is replaced by the right side, unless the
+   context is cancelled (the context is polled before the right side runs) *)
 Definition invoke_coalesce (l r : expr) (s : rstate) : outcome :=
   match rec (CExpr l) s with
   | Ok s1 => if is_nil (deref (r_st s1) (r_rv s1)) then rec (CExpr r) s1 else Ok s1
-  | Err (ESentinel SInterruptS) s1 => Err (ESentinel SInterruptS) s1
-  | Err _ s1 => rec (CExpr r) s1
+  | Err _ s1 =>
+      let '(cancelled, s2) := poll s1 in
+      if cancelled then Err (ESentinel SInterruptS) (set_rv s2 rv_nil) else rec (CExpr r) s2
   | Abort a => Abort a
   end.
 
